@@ -11,8 +11,10 @@ OUTS = ["x", "a b", "a$1b", "${x}", "$name", "$$", "a\\b", "\\n", "*", "{a,b}", 
 RULE = ("39 output texts over the printable alphabet ($1, ${x}, $name, backslashes, *, braces, newlines, leading/trailing blanks, nested "
         "substitution syntax) x both spellings x word start/middle/end x double-quoted/unquoted through line_to_cmds + from_line in-process "
         "with scripted command outputs, vs the Lean model vs the Lean spec; the substitution pass alone on random token lists (several "
-        "substitutions per word and line, rejected inner commands); through the real binary: output literalness with printf, run-exactly-once "
-        "with a counting helper, assignments and here-strings. non-trivial = distinct (output, spelling, position, quoting)")
+        "substitutions per word and line -- words composed of 2-4 substitutions of either spelling with valid and rejected inner commands and "
+        "literal text between them --, rejected inner commands); through the real binary: output literalness with printf, run-exactly-once "
+        "with a counting helper, assignments and here-strings; `state`: histories of variable / directory operations some of which are written "
+        "inside a substitution (`true $(cd d1)`, `$(export A=v)`, `$(unset A)`, `$(exit 3)`), observed like C09's script stream. non-trivial = distinct (output, spelling, position, quoting)")
 
 
 def mk(p, pre, form, cmd, post, dq, out, meta, key=None):
@@ -35,11 +37,20 @@ def generate(tier, rng):
     env = gens.env_field(vars={"A": "va"}, exported={"HOME": "/h"}, cmds=outs)
     words = ["$(o1)", "`o2`", "x$(o0)y", "$(o3)$(o4)", "`o0``o1`", "$(o17)", "$(echo >)", "`a >`", "A=$(o1)", "A=`o1`", "$(o0", "$(o0))", "\"$(o5)\"",
              "'$(o0)'", "$A", "$(o36)", "plain", "$(o20)", "$( o0 )", "$(o0 | o1)", "<<<", "$(o38)", "5$-$(o0)-z", "a$ $(o1)", "$$(o0)", "$(o0)\nrest", "p\n$(o0)", "$-`o1`$", "a)$(o0)(b"]
+    # words composed of several substitutions in a row: valid and rejected inner commands, both spellings, literal text between
+    pieces_bq = ["`o0`", "`o1`", "`o2`", "`a >`", "`>`", "`o20`", "`o14`"]
+    pieces_dl = ["$(o0)", "$(o1)", "$(echo >)", "$(o20)", "$(o3)"]
+    lits = ["-", "a", ".", "", "x=", ":"]
+
+    def composed():
+        pool = pieces_bq if r.below(3) else (pieces_dl if r.below(2) else pieces_bq + pieces_dl)
+        return "".join(r.choice(lits) + r.choice(pool) for _ in range(2 + r.below(3))) + r.choice(lits)
+
     for _ in range(n):
         k = 1 + r.below(4)
         ts = []
         for _ in range(k):
-            w = r.choice(words)
+            w = r.choice(words) if r.below(3) else composed()
             sep = r.choice(["", "", '"', "'", "`", "\\"])
             if w.startswith('"') or w.startswith("'"):
                 sep, w = w[0], w[1:-1]
@@ -108,7 +119,109 @@ def process(tier, rng, cicada):
     sb.cleanup()
     global ONCE
     ONCE = once
-    return [("-c", cases, impl)]
+    scases, simpl = substate(tier, rng, cicada)
+    return [("-c", cases, impl), ("state", scases, simpl)]
+
+
+WRAP_CD = ["d1", "d1/d2", "..", "l1", "lrel", "nope", "d1/f", "@R/d1", "@R/l1"]
+WRAP_VALS = ["v", "1", "p:q", "d1", "w", "0"]
+
+
+def substate(tier, rng, cicada):
+    """"the shell's own state is unaffected": histories of variable / directory operations (the generator of C09) in which some
+    operations are written inside a command substitution -- `true $(cd d1)`, `true $(export A=v)`, `true $(unset A)` -- and
+    optionally a `true $(exit 3)`; observed after every operation exactly as in C09's script stream (`$?`, expansions, the
+    environment and cwd of a real child, the directory a relative redirection lands in)."""
+    import shutil
+    from . import c09
+    r = rng.fork("c11-state")
+    sb = proc.Sandbox("c11s")
+    n = 24 if tier == "quick" else 400
+    jobs = []
+    for i in range(n):
+        R = os.path.realpath(os.path.join(sb.dir, "t%d" % i, "p1", "p2", "R"))
+        base = c09.gen_ops(r, 8)
+        base = [o for o in base if o[0] != "r"]                      # (read needs a here-string: not this stream's subject)
+        ops, wrapped = [], []
+        for o in base:
+            ops.append(o)
+            if r.below(3) == 0 and i % 4 != 3:
+                k = r.choice("ccxu")
+                if k == "c":
+                    w = ("c", [r.choice(WRAP_CD)])
+                elif k == "x":
+                    w = ("x", r.choice(["A", "B"]), r.choice(WRAP_VALS))
+                else:
+                    w = ("u", r.choice(["A", "B"]))
+                wrapped.append(len(ops))
+                ops.append(w)
+                ops.append(("c", ["."]))                              # a plain command afterwards: the state it starts from
+        exit_after = None
+        if ops and i % 5 == 4:
+            exit_after = r.below(len(ops))
+        env = c09.init_env(r, R)
+        lines = [c09.render(r, op, R) for op in ops]
+        c = Case("substate", [",".join(hx(k) + ":" + hx(v) for k, v in env), ",".join(hx(x) for x in c09.NAMES), ",".join(hx(l) for l in lines),
+                              hx(R), c09.enc_ops(ops, R), c09.tree_field(R), ".".join(map(str, wrapped)) or "-",
+                              "-" if exit_after is None else str(exit_after)],
+                 {"gen": "p", "k": ("state", tuple(o[0] for o in ops), tuple(wrapped), exit_after)})
+        c.id = "s%d" % i
+        jobs.append((c, R, ops, env, lines, wrapped, exit_after))
+
+    def one(job):
+        c, R, ops, env, lines, wrapped, exit_after = job
+        os.makedirs(os.path.dirname(R), exist_ok=True)
+        c09.make_tree(R)
+        NAMES = c09.NAMES
+        script = []
+        for k, (op, line) in enumerate(zip(ops, lines)):
+            if k in wrapped:
+                script.append("true $(%s)" % line.replace("'", "").replace('"', ""))
+                script.append('echo "S|%d|$?|%s"' % (k, "|".join('$%s' % n_ for n_ in NAMES)))
+                script.append("envcwd %s > out.%d" % (" ".join(NAMES), k))
+            elif op[0] == "p":
+                script.append("%s %s > out.%d" % (line, " ".join(NAMES), k))
+                script.append('echo "S|%d|$?|%s"' % (k, "|".join('$%s' % n_ for n_ in NAMES)))
+            else:
+                script.append(line)
+                script.append('echo "S|%d|$?|%s"' % (k, "|".join('$%s' % n_ for n_ in NAMES)))
+                script.append("envcwd %s > out.%d" % (" ".join(NAMES), k))
+            if exit_after == k:
+                script.append("true $(exit 3)")
+        spath = os.path.join(os.path.dirname(R), "..", "..", "script.sh")
+        open(spath, "w").write("\n".join(script) + "\n")
+        e = sb.env(dict(env))
+        if "HOME" not in dict(env):
+            e.pop("HOME", None)
+        try:
+            p = subprocess.run([cicada, os.path.realpath(spath)], cwd=R, env=e, stdin=subprocess.DEVNULL, stdout=subprocess.PIPE,
+                               stderr=subprocess.PIPE, timeout=60)
+            out = p.stdout.decode("utf-8", "replace")
+        except subprocess.TimeoutExpired:
+            return c.id, "HANG"
+        echo = {}
+        for l in out.split("\n"):
+            if l.startswith("S|"):
+                parts = l.split("|")
+                echo[int(parts[1])] = (parts[2], parts[3:])
+        where = {}
+        top = os.path.realpath(os.path.join(os.path.dirname(R), "..", ".."))
+        for dp, dn, fn in os.walk(top):
+            for f in fn:
+                if f.startswith("out."):
+                    where[int(f[4:])] = (os.path.realpath(dp), open(os.path.join(dp, f)).read().strip())
+        obs = []
+        for k in range(len(ops)):
+            st, exps = echo.get(k, ("?", []))
+            d, rec = where.get(k, ("?", "?;?"))
+            ccwd, cenv = (rec.split(";") + ["?"])[:2]
+            obs.append("%s;%s;%s;%s;%s" % (st, hx(d), ccwd, ",".join(hx(x) for x in exps), cenv))
+        shutil.rmtree(top, ignore_errors=True)
+        return c.id, "|".join(obs)
+
+    impl = dict(proc.pmap(one, jobs))
+    sb.cleanup()
+    return [j[0] for j in jobs], impl
 
 
 ONCE = []
